@@ -176,6 +176,31 @@ def r9_fields_filled(ctx, prog):
                 r.violation(f['qname'], site, '%s may have %d bytes when it is copied into the %d-byte field %s' % (srcs[0], bound, extent, fld), file=f['file'], line=line)
             else:
                 r.ok(f['qname'], site, 'clamped to %d = the size of the field' % extent, file=f['file'], line=c['l'])
+        # the same with the clamp written as a selected minimum: n = size > B ? B : size (any of the four forms), copied with length n - B is the clamp bound
+        msites = [c for c in calls(f['body']) if c.get('callee') in ('strncpy', 'memcpy') and len(c.get('args', [])) == 3 and c['args'][0].get('k') == 'Member' and c['args'][0].get('fq')
+                  and not any(x.get('k') == 'Var' and x['name'] in clamps for x in walk(c['args'][2]))]
+        if msites:
+            from engine import bounds
+            sf = SiteFacts(f, prog, trigger=lambda e, st: (e['l'], canon(e['args'][2], st.env)) if any(e is s for s in msites) else None, track_facts=r'^$')
+            sf.go()
+            for (line, n), hits in sorted(sf.sites.items()):
+                mo = bounds.min_operands(n)
+                if not mo:
+                    continue
+                consts = [int(x[7:]) if x.startswith('sizeof:') else int(x) for x in mo if re.fullmatch(r'(sizeof:)?\d+', x)]
+                c = [s_ for s_ in msites if s_['l'] == line][0]
+                cls, fld = c['args'][0]['fq'].rsplit('::', 1)
+                ftype = next((x['type'] for x in (prog.classes.get(cls, {}).get('fields') or []) if x['name'] == fld), '')
+                m = re.search(r'\[(\d+)\]', ftype)
+                if not m or len(consts) != 1:
+                    continue
+                ctx.analysed(f)
+                extent, bound = int(m.group(1)), consts[0]
+                site = 'copy of min(%s) into %s' % (','.join(mo), fld)
+                if bound != extent:
+                    r.violation(f['qname'], site, 'the value is clamped to %d bytes for the %d-byte field %s' % (bound, extent, fld), file=f['file'], line=line)
+                else:
+                    r.ok(f['qname'], site, 'clamped to %d = the size of the field' % extent, file=f['file'], line=line)
         # the same through a file-local helper copy(field, length, value) that clamps `value` to `length` and copies it into `field`: at each call the length is the size of the field
         for c in calls(f['body']):
             if not c.get('callee') or '::' in c['callee']:
